@@ -121,3 +121,37 @@ def from_lattice(g):
             "P": P, "e": e, "omega": g["wi"] * math.pi, "M0": g["m0i"] * math.pi, "poly": g["poly"], "noff": g["noff"],
             "kkind": g["kkind"], "sK0sq": g["sK0sq"], "P0": P * r23 ** 1.5 if r23 > 0 else P, "maxKsq": g["maxKsq"][0] / g["maxKsq"][1],
             "muK": g["muK"], "varK": (g["varK"][0] / g["varK"][1]) if g.get("varK") else 1.0, "mu": list(g["mu"]), "var": list(g["var"])}
+
+
+def ln_marginal_exact(c):
+    """ln N(y | M mu, C + s2 I + M Lambda M^T) in exact rational arithmetic on the float inputs (design matrix entries included):
+    for problems where B is far from the scale of C (very broad priors, few epochs) and a float64 evaluation could itself be the
+    one that loses digits.  Small N only (Gaussian elimination over Fractions)."""
+    from fractions import Fraction as F
+    M = [[F(float(v)) for v in row] for row in design(c)]
+    lamv = [F(float(v)) for v in lam(c)]
+    muv = [F(float(v)) for v in mu(c)]
+    csv = [F(float(v)) for v in cs(c)]
+    y = [F(float(v)) for v in c["y"]]
+    n, L_ = len(y), len(lamv)
+    Bm = [[sum(M[i][k] * lamv[k] * M[j][k] for k in range(L_)) + (csv[i] if i == j else 0) for j in range(n)] for i in range(n)]
+    r = [y[i] - sum(M[i][k] * muv[k] for k in range(L_)) for i in range(n)]
+    # solve B z = r and det B by fraction-exact elimination with partial (non-zero) pivoting
+    A = [row[:] + [r[i]] for i, row in enumerate(Bm)]
+    det = F(1)
+    for col in range(n):
+        piv = next(i for i in range(col, n) if A[i][col] != 0)
+        if piv != col:
+            A[col], A[piv] = A[piv], A[col]
+            det = -det
+        det *= A[col][col]
+        for i in range(col + 1, n):
+            f = A[i][col] / A[col][col]
+            if f:
+                A[i] = [a - f * b for a, b in zip(A[i], A[col])]
+    z = [F(0)] * n
+    for i in reversed(range(n)):
+        z[i] = (A[i][n] - sum(A[i][j] * z[j] for j in range(i + 1, n))) / A[i][i]
+    chi2 = sum(r[i] * z[i] for i in range(n))
+    logdet = math.log(det.numerator) - math.log(det.denominator)
+    return -0.5 * (float(chi2) + n * math.log(2 * math.pi) + logdet)
